@@ -282,7 +282,7 @@ func init() {
 		return &Check{ID: "C07",
 			Runs: []Run{{S: anchorScenario(anchorOpts{name: "anchor-records", heights: true}), Opt: map[Tier]Options{
 				Quick:    {Depth: 4, Budget: 150 * time.Second, ReplayEvery: 16},
-				Thorough: {Depth: 8, Budget: 25 * time.Minute, ReplayEvery: 32, MaxStates: 500000},
+				Thorough: {Depth: 8, Budget: 15 * time.Minute, ReplayEvery: 32, MaxStates: 500000},
 			}}},
 			Owns: ownsAny("anch.record", "anch.missing", "tx.accept_unexpected:wrk.rec:height_not_new", "tx.accept_unexpected:wrk.rec:not_owner", "tx.accept_unexpected:bcn.rec:not_owner", "tx.nonatomic"),
 		}
@@ -291,7 +291,7 @@ func init() {
 		return &Check{ID: "C08",
 			Runs: []Run{{S: anchorScenario(anchorOpts{name: "anchor-retention", purchases: true}), Opt: map[Tier]Options{
 				Quick:    {Depth: 4, Budget: 150 * time.Second, ReplayEvery: 16},
-				Thorough: {Depth: 8, Budget: 25 * time.Minute, ReplayEvery: 32, MaxStates: 500000},
+				Thorough: {Depth: 8, Budget: 15 * time.Minute, ReplayEvery: 32, MaxStates: 500000},
 			}}},
 			Owns: ownsAny("anch.missing", "anch.unpruned", "anch.meta", "anch.limit", "anch.storage", "tx.accept_unexpected:wrk.pur", "tx.accept_unexpected:bcn.pur"),
 		}
@@ -300,7 +300,7 @@ func init() {
 		return &Check{ID: "C09",
 			Runs: []Run{{S: anchorScenario(anchorOpts{name: "anchor-identity", identity: true}), Opt: map[Tier]Options{
 				Quick:    {Depth: 4, Budget: 150 * time.Second, ReplayEvery: 16},
-				Thorough: {Depth: 6, Budget: 25 * time.Minute, ReplayEvery: 32, MaxStates: 500000},
+				Thorough: {Depth: 6, Budget: 15 * time.Minute, ReplayEvery: 32, MaxStates: 500000},
 			}}},
 			Owns: ownsAny("anch.identity", "tx.accept_unexpected:wrk.rec:not_owner", "tx.accept_unexpected:wrk.rec:no_such_entity", "tx.accept_unexpected:bcn.rec:not_owner", "tx.accept_unexpected:bcn.rec:no_such_entity",
 				"tx.accept_unexpected:wrk.pur:not_owner", "tx.accept_unexpected:wrk.pur:no_such_entity", "tx.accept_unexpected:bcn.pur:not_owner", "tx.accept_unexpected:bcn.pur:no_such_entity", "tx.nonatomic"),
